@@ -171,7 +171,7 @@ Proof.
       { pose proof (nth_nonneg (vals h) (N.to_nat i) (vals_nonneg h)).
         unfold power_for at 2. cbn [fold_right snd fst]. fold (power_for (vals h) (vs_votes vs) m).
         unfold power. destruct (bid_eqb b m); lia. }
-      lia.
+      cbn [vs_votes]. lia.
     + destruct (is_quorum _ _) eqn:Q; [|discriminate]. intros Ec. injection Ec as <-. exact Q.
 Qed.
 
